@@ -33,13 +33,19 @@ Definition dec_pkt (x : sx) : option pkt :=
   | _ => None
   end.
 
-Definition dec_input (x : sx) : option (table * list str * pkt) :=
+Definition dec_input (x : sx) : option (table * list str * pkt * list str) :=
   match x with
   | SL [t; pend; p] =>
       do t' <- as_list (as_list dec_matcher) t;
       do pend' <- as_list as_s pend;
       do p' <- dec_pkt p;
-      Some (t', pend', p')
+      Some (t', pend', p', [])
+  | SL [t; pend; p; ended] =>       (* ended: ids of requests whose context has ended, entry still registered *)
+      do t' <- as_list (as_list dec_matcher) t;
+      do pend' <- as_list as_s pend;
+      do p' <- dec_pkt p;
+      do e' <- as_list as_s ended;
+      Some (t', pend', p', e')
   | _ => None
   end.
 
@@ -51,14 +57,15 @@ Definition reply_sx (r : reply) : sx :=
   SL [SZ 2; attrs_sx (rp_attrs r);
       SS (match rp_condition r with Some c => c | None => [] end)].
 
-Definition run_typed (inp : table * list str * pkt) : sx :=
-  let '(t, pend, p) := inp in
-  let '(ev, pend') := do_route t pend p in
+Definition run_typed (inp : table * list str * pkt * list str) : sx :=
+  let '(t, pend, p, ended) := inp in
+  let '(ev, pend', ended') := do_route_e t pend ended p in
   SL [ SL (map (fun i => SL [Snat i; SB true]) (handler_log ev));   (* (route index, got the routed packet) *)
        SL (map reply_sx (replies ev));                              (* Sender.Send *)
        SL [];                                                       (* Sender.SendRaw: never *)
        SZ 0;                                                        (* Sender.SendIQ: never *)
        SL (map attrs_sx (deliveries ev));
-       SL (map SS pend') ].
+       SL (map SS pend');
+       SL (map SS ended') ].                                        (* ended requests still registered *)
 
 Definition run_C06 : sx -> sx := with_input dec_input run_typed.
